@@ -1,6 +1,7 @@
 package main
 
 import (
+	"os"
 	"fmt"
 	"go/constant"
 	"go/token"
@@ -475,6 +476,24 @@ func (e *Engine) store(st *state, fr *frame, addr, v *Val, instr ssa.Instruction
 			base = base.Args[0]
 		}
 		if old, ok := st.content[base.Key()]; ok {
+			if so := stripCT(old); so != nil && (so.Op == "staged" || so.Op == "intbytes") && base.Op == "alloc" {
+				// a single byte of a record being laid out in a local byte array
+				if k, isC := addr.Args[1].Int64(); isC {
+					if total, okT := so.Aux.(int); okT || so.Op == "intbytes" {
+						if !okT {
+							if pt, isP := base.Type.(*types.Pointer); isP {
+								if arr, isA := pt.Elem().Underlying().(*types.Array); isA {
+									total = int(arr.Len())
+								}
+							}
+						}
+						if total > 0 && k >= 0 && int(k) < total {
+							stageSeg(st, base, int(k), total, &Val{Op: "intbytes", Name: "", Args: []*Val{v}, Type: types.Typ[types.Uint8]}, so.Type)
+							return
+						}
+					}
+				}
+			}
 			st.content[base.Key()] = &Val{Op: "elemstore", Args: []*Val{old, addr.Args[1], v}, Type: old.Type}
 		}
 	}
@@ -1209,9 +1228,7 @@ func (e *Engine) execLoop(st *state, fr *frame, h, prev *ssa.BasicBlock, body ma
 		nst := st.clone()
 		nst.mem = o.st.mem
 		nst.content = o.st.content
-		if fillS != nil {
-			nst.content[fillS.Key()] = fillC
-		}
+		applyFill(nst, fillS, fillC)
 		for k, v := range o.st.allocT {
 			nst.allocT[k] = v
 		}
@@ -1258,7 +1275,7 @@ func (e *Engine) execLoop(st *state, fr *frame, h, prev *ssa.BasicBlock, body ma
 		} else {
 			memOut(nst, nfr, true, nil)
 			if fillS != nil {
-				nst.content[fillS.Key()] = fillC
+				applyFill(nst, fillS, fillC)
 			}
 			for _, pi := range phis {
 				nfr.env[pi.phi] = loopOut[pi.phi]
@@ -1500,13 +1517,54 @@ func fillLoop(iters []*Arm, count *Val, lid int) (*Val, *Val) {
 		}
 		store = ev
 	}
+	if os.Getenv("FPDEBUG") != "" {
+		fmt.Fprintln(os.Stderr, "fillLoop: store", store != nil, "events", len(iters[0].Events), "local", len(iters[0].Local))
+	}
 	if store == nil || store.Dst == nil || store.Dst.Op != "index" || len(store.Dst.Args) != 2 {
 		return nil, nil
 	}
 	S, idx := store.Dst.Args[0], store.Dst.Args[1]
 	isLV := func(x *Val) bool { return x.Op == "loopvar" && x.ID == lid }
+	if os.Getenv("FPDEBUG") != "" {
+		fmt.Fprintln(os.Stderr, "fillLoop: S", S.Pretty(), "idx", idx.Pretty(), "src", valOrNil(store.Src), "dstop", store.Dst.Op)
+	}
 	if S.Contains(isLV) || store.Src == nil {
 		return nil, nil
+	}
+	// `for i := copy(dst, s); i < len(dst); i++ { dst[i] = pad }` with dst a field of a record laid out in a local byte
+	// array: the rest of the field behind the copied text
+	if a := affOf(idx); !a.Top && len(a.Term) == 1 && !reads {
+		for k, c := range a.Term {
+			lv := a.Sym[k]
+			if c != 1 || !isLV(lv) || len(lv.Args) != 1 {
+				break
+			}
+			cp := stripCT(lv.Args[0])
+			if cp.Op != "call" || cp.Name != "copy" || len(cp.Args) != 2 {
+				break
+			}
+			D := cp.Args[0]
+			base, lo, hi, _, okD := byteArraySegment(D)
+			if !okD {
+				break
+			}
+			// the element written is element i of dst
+			sameTarget := (S.Key() == D.Key() && a.C == 0) || (S.Key() == base.Key() && a.C == int64(lo))
+			nx := iters[0].Next[lv.Name]
+			if !sameTarget || nx == nil {
+				break
+			}
+			if k1, ok := affOf(nx).Add(affOf(lv), -1).IsConst(); !ok || k1 != 1 {
+				break
+			}
+			if !affOf(count).Equal(affConst(int64(hi - lo)).Add(affOf(lv.Args[0]), -1)) {
+				break
+			}
+			if store.Src.Contains(func(x *Val) bool { return isLV(x) || x.Op == "wire" || x.Op == "elem" }) {
+				break
+			}
+			return D, &Val{Op: "padfill", Args: []*Val{store.Src, cp.Args[1]}, Type: D.Type}
+		}
 	}
 	bulk := false
 	var bulkW *Val
@@ -1588,6 +1646,9 @@ func fillLoop(iters []*Arm, count *Val, lid int) (*Val, *Val) {
 		return nil, nil
 	}
 	a := affOf(idx)
+	if os.Getenv("FPDEBUG") != "" {
+		fmt.Fprintln(os.Stderr, "fillLoop: idx", idx.Pretty(), "aff", a.String(), "S type", S.Type)
+	}
 	if a.Top || len(a.Term) != 1 {
 		return nil, nil
 	}
@@ -1602,6 +1663,9 @@ func fillLoop(iters []*Arm, count *Val, lid int) (*Val, *Val) {
 		return nil, nil
 	}
 	init, isC := lv.Args[0].Int64()
+	if os.Getenv("FPDEBUG") != "" {
+		fmt.Fprintln(os.Stderr, "fillLoop: lv init", lv.Args[0].Pretty(), "S", S.Key(), "count", count.Pretty(), "a.C", a.C)
+	}
 	if !isC || init+a.C != 0 {
 		return nil, nil
 	}
@@ -2082,6 +2146,51 @@ func integerTypeSet(t types.Type) bool {
 	return all(tp.Constraint().Underlying(), 0)
 }
 
+// numberTypeSet: t is a type parameter whose constraint admits only fixed-size number types (every one of them at
+// least one byte on the wire).
+func numberTypeSet(t types.Type) bool {
+	tp, ok := t.(*types.TypeParam)
+	if !ok {
+		return false
+	}
+	isNum := func(t types.Type) bool {
+		b, ok := t.Underlying().(*types.Basic)
+		return ok && b.Info()&(types.IsInteger|types.IsFloat|types.IsBoolean) != 0 && b.Kind() != types.Int && b.Kind() != types.Uint && b.Kind() != types.Uintptr
+	}
+	var all func(t types.Type, depth int) bool
+	all = func(t types.Type, depth int) bool {
+		if depth > 6 {
+			return false
+		}
+		switch u := t.(type) {
+		case *types.Union:
+			if u.Len() == 0 {
+				return false
+			}
+			for i := 0; i < u.Len(); i++ {
+				if !all(u.Term(i).Type(), depth+1) {
+					return false
+				}
+			}
+			return true
+		case *types.Interface:
+			any := false
+			for i := 0; i < u.NumEmbeddeds(); i++ {
+				if all(u.EmbeddedType(i), depth+1) {
+					any = true
+				}
+			}
+			return any
+		case *types.Named, *types.Alias:
+			if _, isI := t.Underlying().(*types.Interface); isI {
+				return all(t.Underlying(), depth+1)
+			}
+		}
+		return isNum(t)
+	}
+	return all(tp.Constraint().Underlying(), 0)
+}
+
 func isSignedType(t types.Type) bool {
 	b, ok := t.Underlying().(*types.Basic)
 	return ok && b.Info()&types.IsInteger != 0 && b.Info()&types.IsUnsigned == 0
@@ -2245,4 +2354,26 @@ func (e *Engine) latchTripCount(o *outcome, h *ssa.BasicBlock, lc *loopCtx, iter
 	}
 	lc.ctrVar, lc.ctrOff, lc.ctrBound = lv, a.C-1, bound
 	return affToVal(affOf(bound).Add(first, -1)), "counted", true
+}
+
+// applyFill records what a recognised fill loop left in the slice it filled.
+func applyFill(nst *state, fillS, fillC *Val) {
+	if fillS == nil {
+		return
+	}
+	if fillC.Op != "padfill" {
+		nst.content[fillS.Key()] = fillC
+		return
+	}
+	// the fill completes the field whose head was copied: the staged text segment now has its pad byte
+	if base, lo, hi, total, ok := byteArraySegment(fillS); ok {
+		if stg := stripCT(nst.content[base.Key()]); stg != nil && stg.Op == "staged" {
+			for _, sg := range stg.Args {
+				if sg.Op == "padded" && sg.ID == lo && sg.Aux.(int) == hi-lo && sg.Args[1] == nil {
+					stageSeg(nst, base, lo, total, &Val{Op: "padded", Aux: hi - lo, Args: []*Val{sg.Args[0], fillC.Args[0]}, Type: sg.Type}, stg.Type)
+					return
+				}
+			}
+		}
+	}
 }
